@@ -16,6 +16,17 @@ CLAIMED = {
     technique="Lean 4 proof (refinement + invariants by induction over op lists) + differential correspondence model vs implementation",
     design="DESIGN.md §5 C16"),
 }
+CLAIMED["C15"] = dict(
+    level="proof",
+    text="Lean 4 theorems over arithmetic models of math::align, PoolAllocator (construction, bucket count, bucket address, index recovery), BumpAllocator, "
+         "PointerOffset packing and resize_hint: for every base address, memory size and bucket layout each bucket is in bounds, aligned and disjoint from every other; "
+         "for every alloc/dealloc history live allocations stay pairwise disjoint; errors are exactly the documented ones and change nothing; offset/segment packing "
+         "round-trips. Tied to /repo on every run by a differential layout sweep + random histories against bb/memory, bb/elementary and cal/shm_allocator, with an "
+         "independent pointer oracle in the harness.",
+    note="Trusted: Lean kernel + 3 standard axioms; hand-written arithmetic model (tie = differential testing); usize as Nat; single-threaded index order. "
+         "Dynamic growth of data segments is covered at port level by other checks only.",
+    technique="Lean 4 proof (arithmetic lemmas + bookkeeping invariant by induction over op lists) + differential correspondence with pointer oracle",
+    design="DESIGN.md §5 C15")
 NOT_YET = {}
 
 def main():
